@@ -894,6 +894,7 @@ func Run(r *common.Run) error {
 
 	// 1c. nesting depth: documents generated from the grammar (nest.go)
 	c.nests()
+	c.quoteCost()
 
 	// 2. small scope, exhaustive: every document up to length L over the directive alphabet
 	// under every way of cutting it into reads, with and without EOF on the last read
@@ -1006,6 +1007,9 @@ func Run(r *common.Run) error {
 	}
 	if c.hung {
 		r.Notes = append(r.Notes, "a decode hung; the run was cut short")
+	} else if !r.Quick() {
+		// last: a decoder that does not finish keeps its goroutine busy until the process ends
+		c.deepQuote(40000)
 	}
 	r.Extra["decoder_split_calls_judged"] = c.judged
 	r.Extra["max_span_depth"] = c.maxSpanDepth
@@ -1022,6 +1026,87 @@ func Run(r *common.Run) error {
 // known=false: the shape was not recognised; unbounded=true: the limit is math.MaxInt or
 // more; otherwise n is the limit (bufio.MaxScanTokenSize when Buffer is never called).
 func DecoderLimit(repo string) (known, unbounded bool, n uint64) {
+	if known, unbounded, n = probeDecoderLimit(); known {
+		return known, unbounded, n
+	}
+	return decoderLimitAST(repo)
+}
+
+// probeDecoderLimit (round E, review C17-2a) asks the value, not the source: the Decoder the
+// real NewDecoder returns is searched (reflect, any field name, through pointers and nested
+// structs of package styling) for its *bufio.Scanner, whose token limit is read from the
+// scanner itself.  Where the Buffer call is written (NewDecoder, a helper, another file) and
+// how its argument is spelled does not matter.  known=false: no scanner or more than one, or
+// bufio.Scanner has no maxTokenSize field any more (then the source reader below is used).
+func probeDecoderLimit() (known, unbounded bool, n uint64) {
+	defer func() {
+		if recover() != nil {
+			known = false
+		}
+	}()
+	d := styling.NewDecoder(bytes.NewReader(nil))
+	var found []reflect.Value
+	seen := map[uintptr]bool{}
+	var walk func(v reflect.Value, depth int)
+	walk = func(v reflect.Value, depth int) {
+		if depth > 6 || !v.IsValid() {
+			return
+		}
+		switch v.Kind() {
+		case reflect.Ptr:
+			if v.IsNil() || seen[v.Pointer()] {
+				return
+			}
+			seen[v.Pointer()] = true
+			if v.Type() == reflect.TypeOf(&bufio.Scanner{}) {
+				found = append(found, v.Elem())
+				return
+			}
+			if v.Elem().Kind() == reflect.Struct {
+				walk(v.Elem(), depth+1)
+			}
+		case reflect.Struct:
+			if v.Type() == reflect.TypeOf(bufio.Scanner{}) {
+				found = append(found, v)
+				return
+			}
+			for i := 0; i < v.NumField(); i++ {
+				f := v.Field(i)
+				if f.CanAddr() {
+					f = reflect.NewAt(f.Type(), unsafe.Pointer(f.UnsafeAddr())).Elem()
+				}
+				walk(f, depth+1)
+			}
+		case reflect.Interface:
+			if !v.IsNil() {
+				walk(v.Elem(), depth+1)
+			}
+		}
+	}
+	walk(reflect.ValueOf(d), 0)
+	if len(found) != 1 {
+		return false, false, 0
+	}
+	f := found[0].FieldByName("maxTokenSize")
+	if !f.IsValid() || f.Kind() != reflect.Int {
+		return false, false, 0
+	}
+	v := f.Int()
+	if v >= math.MaxInt64>>1 {
+		return true, true, 0
+	}
+	if v < 0 {
+		return false, false, 0
+	}
+	// "the maximum token size is the larger of max and cap(buf)"
+	if b := found[0].FieldByName("buf"); b.IsValid() && b.Kind() == reflect.Slice && int64(b.Cap()) > v {
+		v = int64(b.Cap())
+	}
+	return true, false, uint64(v)
+}
+
+// decoderLimitAST: the source reader of the earlier rounds (fallback only).
+func decoderLimitAST(repo string) (known, unbounded bool, n uint64) {
 	fset := token.NewFileSet()
 	f, err := parser.ParseFile(fset, filepath.Join(repo, "styling", "styling.go"), nil, 0)
 	if err != nil {
